@@ -49,6 +49,8 @@ where C: FullDuplexUniChannel<ItemType = u32> + Send + Sync + 'static,
     }
     let chan: &'static Arc<C> = Box::leak(Box::new(chan));
     let streams: &'static Vec<_> = Box::leak(Box::new(streams));
+    // outstanding reservations of the case: k -> (address of the slot handed out by reserve_slot, value to write into it)
+    let table: &'static Mutex<Vec<Option<(usize, u32)>>> = Box::leak(Box::new(Mutex::new((0..64).map(|_| None).collect())));
     verif::reset(case.progs.len());
     let mut handles = vec![];
     for (tid, prog) in case.progs.iter().enumerate() {
@@ -79,7 +81,14 @@ where C: FullDuplexUniChannel<ItemType = u32> + Send + Sync + 'static,
                         let mut cx = Context::from_waker(&waker);
                         loop {
                             match stream.poll_next_unpin(&mut cx) {
-                                Poll::Ready(Some(item)) => { ret(tid, 12, item.as_i64(), id as i64); drop(item); if !drive { break } },
+                                Poll::Ready(Some(item)) => {
+                                    ret(tid, 12, item.as_i64(), id as i64);
+                                    // a payload handle (zero-copy kinds) gives its slot back when it is dropped: marked by a record of its own
+                                    let handle = item.addr() != 0;
+                                    drop(item);
+                                    if handle { ret(tid, 17, id as i64, 0); }
+                                    if !drive { break }
+                                },
                                 Poll::Ready(None)       => { ret(tid, 14, id as i64, 0); break },
                                 Poll::Pending           => {
                                     ret(tid, 13, id as i64, 0);
@@ -94,6 +103,47 @@ where C: FullDuplexUniChannel<ItemType = u32> + Send + Sync + 'static,
                         }
                     },
                     "cancel_all" => { chan.cancel_all_streams(); ret(tid, 16, 0, 0) },
+                    // ---- the other entry points that can accept an event
+                    "res" => {
+                        let k = op.arg(0) as usize;
+                        match chan.reserve_slot() {
+                            Some(slot) => { table.lock().unwrap()[k] = Some((slot as *mut u32 as usize, op.arg(1) as u32)); ret(tid, 20, k as i64, 0) },
+                            None       => ret(tid, 21, k as i64, 0),
+                        }
+                    },
+                    "sres" => {
+                        let k = op.arg(0) as usize;
+                        let r = table.lock().unwrap()[k];
+                        match r {
+                            Some((slot, value)) => {
+                                unsafe { std::ptr::write(slot as *mut u32, value) };
+                                if chan.try_send_reserved(unsafe { &mut *(slot as *mut u32) }) { table.lock().unwrap()[k] = None; ret(tid, 27, k as i64, 0) }
+                                else { ret(tid, 23, k as i64, 0) }
+                            },
+                            None => { verif::yield_point("yield", 2); ret(tid, 26, k as i64, 0) },
+                        }
+                    },
+                    "cres" => {
+                        let k = op.arg(0) as usize;
+                        let r = table.lock().unwrap()[k];
+                        match r {
+                            Some((slot, _value)) => {
+                                if chan.try_cancel_slot_reserve(unsafe { &mut *(slot as *mut u32) }) { table.lock().unwrap()[k] = None; ret(tid, 24, k as i64, 0) }
+                                else { ret(tid, 25, k as i64, 0) }
+                            },
+                            None => { verif::yield_point("yield", 2); ret(tid, 26, k as i64, 0) },
+                        }
+                    },
+                    "senda" => {
+                        // send_with_async with a setter that is ready at its first poll
+                        let v = op.arg(0) as u32;
+                        let r = futures::executor::block_on(chan.send_with_async(move |slot: &'static mut u32| async move { *slot = v; slot }));
+                        match r {
+                            keen_retry::RetryResult::Ok { .. }        => ret(tid, 10, op.arg(0), 0),
+                            keen_retry::RetryResult::Transient { .. } => ret(tid, 11, op.arg(0), 0),
+                            keen_retry::RetryResult::Fatal { .. }     => ret(tid, 99, 0, 0),
+                        }
+                    },
                     "len" => {
                         // a length query without any shared access of its own gets a scheduling point from the harness
                         if let Some(addr) = len_yield { verif::yield_point("yield", addr); }
@@ -133,6 +183,7 @@ fn move_atomic<const N: usize, const M: usize>(case: &Case) -> Vec<i64> {
         let (addrs, slot_size) = ring.verif_addrs();
         for (i, a) in addrs[..4].iter().enumerate() { locs.cell(*a, i as i64); }
         locs.array(addrs[4], slot_size, N, 100);
+        locs.cell(2, 2);
     }
     run_generic(case, chan, locs, None, |c| c.verif_parts().1.verif_counters().iter().map(|v| *v as i64).collect())
 }
@@ -153,8 +204,56 @@ fn move_full_sync<const N: usize, const M: usize>(case: &Case) -> Vec<i64> {
     run_generic(case, chan, locs, Some(guard), |c| c.verif_parts().1.verif_counters().iter().map(|v| *v as i64).collect())
 }
 
+/// kinds without a lock-step model (judged by the oracles only): their cells are named where the harness can reach them
+fn zc_atomic<const N: usize, const M: usize>(case: &Case) -> Vec<i64> {
+    let chan = ChannelUniZeroCopyAtomic::<u32, N, M>::new("c");
+    let mut locs = LocMap::new();
+    {
+        let (sm, zc) = chan.verif_parts();
+        sm_locs(sm, &mut locs);
+        let (alloc, ring) = zc.verif_parts();
+        let (a, sz) = ring.verif_addrs();
+        for (i, x) in a[..4].iter().enumerate() { locs.cell(*x, i as i64); }
+        locs.array(a[4], sz, N, 100);
+        let (a, sz) = alloc.verif_free_list().verif_addrs();
+        for (i, x) in a[..4].iter().enumerate() { locs.cell(*x, 500 + i as i64); }
+        locs.array(a[4], sz, N, 600);
+        locs.cell(2, 2);
+    }
+    run_generic(case, chan, locs, None, |c| { let (alloc, ring) = c.verif_parts().1.verif_parts(); let r = ring.verif_counters(); let f = alloc.verif_free_list().verif_counters();
+                                             vec![r[0] as i64, r[1] as i64, r[2] as i64, r[3] as i64, f[0] as i64, f[1] as i64] })
+}
+fn zc_full_sync<const N: usize, const M: usize>(case: &Case) -> Vec<i64> {
+    let chan = ChannelUniZeroCopyFullSync::<u32, N, M>::new("c");
+    let mut locs = LocMap::new();
+    let guard;
+    {
+        let (sm, zc) = chan.verif_parts();
+        sm_locs(sm, &mut locs);
+        let (alloc, ring) = zc.verif_parts();
+        let (a, sz) = ring.verif_addrs();
+        locs.cell(a[0], 0); locs.cell(a[1], 1); locs.cell(a[2], 4); locs.array(a[3], sz, N, 100);
+        guard = a[2];
+        let (a, sz) = alloc.verif_free_list().verif_addrs();
+        locs.cell(a[0], 500); locs.cell(a[1], 501); locs.cell(a[2], 504); locs.array(a[3], sz, N, 600);
+        locs.cell(2, 2);
+    }
+    run_generic(case, chan, locs, Some(guard), |c| { let (alloc, ring) = c.verif_parts().1.verif_parts(); let r = ring.verif_counters(); let f = alloc.verif_free_list().verif_counters();
+                                             vec![r[0] as i64, r[1] as i64, f[0] as i64, f[1] as i64] })
+}
+fn crossbeam<const N: usize, const M: usize>(case: &Case) -> Vec<i64> {
+    let chan = ChannelUniMoveCrossbeam::<u32, N, M>::new("c");
+    let mut locs = LocMap::new();
+    for i in 0..M { locs.cell(NOTIFIED_BASE + i, 300 + i as i64); }
+    locs.cell(2, 2);
+    run_generic(case, chan, locs, None, |_c| vec![])
+}
+
 pub fn run(case: &Case) -> Vec<i64> {
     match case.gets("chan") {
+        "zc_atomic"      => dispatch_nm!(zc_atomic, case),
+        "zc_full_sync"   => dispatch_nm!(zc_full_sync, case),
+        "crossbeam"      => dispatch_nm!(crossbeam, case),
         "move_atomic"    => dispatch_nm!(move_atomic, case),
         "move_full_sync" => dispatch_nm!(move_full_sync, case),
         other => panic!("uni: unknown channel kind '{other}'"),
